@@ -26,6 +26,18 @@ type message struct {
 	flags map[imap.Flag]struct{}
 }
 
+// messageSnapshot holds a copy of the mutable state of a message, so that it
+// can be used once the mailbox mutex has been released.
+type messageSnapshot struct {
+	msg   *message
+	flags []imap.Flag
+}
+
+// snapshot must be called with the mailbox mutex held.
+func (msg *message) snapshot() messageSnapshot {
+	return messageSnapshot{msg: msg, flags: msg.flagList()}
+}
+
 func (msg *message) fetch(w *imapserver.FetchResponseWriter, options *imap.FetchOptions) error {
 	w.WriteUID(msg.uid)
 
